@@ -197,8 +197,70 @@ func normalize(t *Term) *Term {
 		}
 	case KField:
 		// fld(ref-free struct load, f) is handled with context in FuncInfo.
+	case KSlice:
+		// slc(slc(X,a,b),c,d) = slc(X, a+c, a+d)   (d == end: b)
+		if len(t.A) == 3 && t.A[0].K == KSlice && len(t.A[0].A) == 3 {
+			inner := t.A[0]
+			// only for slices of slices/strings (not for array pointers, whose inner slice is the base)
+			a, b := inner.A[1], inner.A[2]
+			c, d := t.A[1], t.A[2]
+			lo := addTerms(a, c)
+			var hi *Term
+			if k, ok := d.IsConst(); ok && k == "end" {
+				hi = b
+			} else {
+				hi = addTerms(a, d)
+			}
+			return &Term{K: KSlice, A: []*Term{inner.A[0], lo, hi}, Typ: t.Typ, Val: t.Val}
+		}
 	}
 	return t
+}
+
+// addTerms builds a + b with constant folding.
+func addTerms(a, b *Term) *Term {
+	ca, oka := constInt64(a)
+	cb, okb := constInt64(b)
+	switch {
+	case oka && okb:
+		return mk(KConst, itoa64(ca+cb), a.Typ, nil)
+	case oka && ca == 0:
+		return b
+	case okb && cb == 0:
+		return a
+	}
+	// (x + k1) + k2
+	if okb && a.K == KBin && a.S == "+" {
+		if k1, ok := constInt64(a.A[0]); ok {
+			return normalize(mk(KBin, "+", a.Typ, nil, mk(KConst, itoa64(k1+cb), a.Typ, nil), a.A[1]))
+		}
+		if k1, ok := constInt64(a.A[1]); ok {
+			return normalize(mk(KBin, "+", a.Typ, nil, mk(KConst, itoa64(k1+cb), a.Typ, nil), a.A[0]))
+		}
+	}
+	return normalize(mk(KBin, "+", a.Typ, nil, a, b))
+}
+
+func itoa64(v int64) string {
+	neg := v < 0
+	if neg {
+		v = -v
+	}
+	if v == 0 {
+		return "0"
+	}
+	var buf [24]byte
+	n := len(buf)
+	for v > 0 {
+		n--
+		buf[n] = byte('0' + v%10)
+		v /= 10
+	}
+	if neg {
+		n--
+		buf[n] = '-'
+	}
+	return string(buf[n:])
 }
 
 // ---- building terms from SSA ---------------------------------------------------
